@@ -48,6 +48,22 @@ def generate(rng, tier, index, backends):
         if rows_ix is not None:
             again["rows"] = rows_ix
         sels.insert(rng.randrange(len(sels) + 1), again)
+    if wp.get("prefix", {}).get("line_numbers", "normal") != "normal":
+        # labels are not 1..n here: label-based selections are replaced by positional ones (the
+        # request oracle needs to know which lines a selection touches)
+        sels = [x if x["kind"] != "sel" else {"kind": "isel", "rows": select.gen_index(rng, n)}
+                for x in sels]
+    # one line asked for in different ways, back to back (integer / one-row slice / one-row list)
+    for _ in range(2):
+        r0 = rng.randrange(n)
+        forms = [{"int": r0}, {"slice": [r0, r0 + 1, None]}, {"arr": [r0]}, {"int": r0 - n}]
+        rng.shuffle(forms)
+        pos = rng.randrange(len(sels) + 1)
+        for k_f, f in enumerate(forms[:rng.randint(2, 4)]):
+            twin_sel = {"kind": "isel", "rows": f}
+            if rng.random() < 0.4:
+                twin_sel["columns"] = select.gen_index(rng, p)
+            sels.insert(pos + k_f, twin_sel)
     scan = []
     if n >= 3 and rng.random() < 0.6:
         # sequential reading: 3-6 consecutive loads, each starting right after the previous one
@@ -283,7 +299,7 @@ def check_load_events(events, sel, cls, image, n, r_eff, ext, fsize, rel):
     for ev in events:
         _, _, kind, f = ev[:4]
         base = f.rsplit("/", 1)[-1] if isinstance(f, str) else str(f)
-        if kind == "blocked":
+        if kind in ("blocked", "stat", "info"):   # waiting / existence probes are not reads
             continue
         if base != image:
             out.append(Violation("C11", "load-touches-other-file", site, {
